@@ -272,7 +272,12 @@ func (e *mvEnv) judge(label string, m *nom.Momentum, blocks []*nom.AccountBlock)
 		blocksTok = strings.Join(ss, ",")
 	}
 	// --- oracles
-	computed := m.ComputeHash()
+	// the hash the candidate's content commits to, computed from the fields by the harness (momentumPreimage: the content
+	// headers IN THE ORDER GIVEN) - not by the repository's own ComputeHash, which is what is under test
+	computed := types.NewHash(momentumPreimage(m))
+	if own := m.ComputeHash(); own != computed {
+		c.Fail("mverify: Momentum.ComputeHash() = %v differs from the hash of the momentum's fields with its content in the order given (%v): the hash does not commit to the content as transmitted; candidate %q height=%d content=%d headers", own, computed, label, m.Height, len(m.Content))
+	}
 	sigErr := len(m.PublicKey) != ed25519.PublicKeySize
 	sigOk := !sigErr && ed25519.Verify(m.PublicKey, m.Hash.Bytes(), m.Signature)
 	producer := types.PubKeyToAddress(m.PublicKey)
@@ -574,6 +579,13 @@ func (e *mvEnv) round(gapSlots int64) {
 					keeps = false
 				}
 				last[h.Address] = h.Height
+			}
+			// the same exchange (and a rotation) with hash and signature LEFT AS THEY ARE: the hash no longer commits to
+			// the content presented, whatever the order means semantically
+			add("content-swap", func(m *nom.Momentum) { m.Content = append(nom.MomentumContent(nil), ct...) })
+			if len(ct) > 2 {
+				rot := append(append(nom.MomentumContent(nil), v.Content[1:]...), v.Content[0])
+				add("content-rotate", func(m *nom.Momentum) { m.Content = rot })
 			}
 			lbl := "content-swap+resign"
 			if keeps {
